@@ -413,10 +413,25 @@ pub struct VmInit {
     /// nested blocks (`[[[ ... program ... ]]]`); expanded by `effective_program`
     #[serde(default)]
     pub wrap: usize,
+    /// one giant block, stored compactly: when > 0 the loaded program is ONE block of `giant` children, child i
+    /// being `program[i % program.len()]` with an integer literal replaced by `i` (so that the order of
+    /// execution shows in the values)
+    #[serde(default)]
+    pub giant: usize,
 }
 
 /// The program actually loaded: `program`, or `program` wrapped in `wrap` nested blocks.
 pub fn effective_program(init: &VmInit) -> Vec<Prog> {
+    if init.giant > 0 && !init.program.is_empty() {
+        let k = init.program.len();
+        let children = (0..init.giant)
+            .map(|i| match &init.program[i % k] {
+                Prog::I(Ins::PushInt(_)) => Prog::I(Ins::PushInt(i as i64)),
+                other => other.clone(),
+            })
+            .collect();
+        return vec![Prog::B(children)];
+    }
     if init.wrap == 0 {
         return init.program.clone();
     }
